@@ -132,7 +132,8 @@ def _(c):
 
 @contract("toasty.merge.TileMerger._get_min_max_of_children")
 def _(c):
-    c.inline()
+    # verified on its own in contracts/datarange.py (C14); callers use it modularly
+    c.returns("tuple[opt[real],opt[real]]")
 
 
 def _merger_model(X):
@@ -226,6 +227,16 @@ def walk_trace(m, path, fr, env, outcome, value, exc):
     merged_arr, out_arr = merges[0][2], _arr(w["image"])
     path.oblige(m.oblname("writes_the_merger_output_at_the_parent_position"),
                 ops.conj([same_pos, z3.BoolVal(out_arr.fn is merged_arr.fn or out_arr is merged_arr)]), kind="trace", assume_after=False)
+    # (2b) the data range written with the parent is the one computed from the four children, in order (C14)
+    mm = [e for e in ev if e[0] == "call" and e[1].endswith("_get_min_max_of_children")]
+    ok_mm = len(mm) == 1 and hasattr(path, "minmax_result")
+    if ok_mm:
+        kids = mm[0][2]["children"].items
+        ok_mm = len(kids) == 4 and all((a is None and b is None) or (a is not None and b is not None and _arr(a).fn is _arr(b).fn)
+                                       for a, b in zip(kids, imgs))
+        rmin, rmax = path.minmax_result
+        ok_mm = ok_mm and w.get("min_value") is rmin and w.get("max_value") is rmax
+    path.oblige(m.oblname("parent_is_written_with_the_range_of_its_four_children"), z3.BoolVal(bool(ok_mm)), kind="trace", assume_after=False)
     # (3) the mosaic handed to the merger: child (2x+i, 2y+j) in display quadrant (i, j), missing/undefined -> undefined
     M = merges[0][1]
     mode = case["mode"]
@@ -256,5 +267,6 @@ def walk_trace(m, path, fr, env, outcome, value, exc):
 def _(c):
     c.cases(*WALK_CASES)
     c.setup(walk_setup)
-    c.module_globals(SUPPORTED_FORMATS=("png", "jpg", "npy", "fits"))
+    c.may_raise("IOError", "an unreadable child tile propagates")
+    c.may_raise("ValueError", "propagated from read_image")
     c.on_path(walk_trace)
